@@ -612,7 +612,7 @@ impl SubCheck for Messages {
 		"messages"
 	}
 	fn cases(&self, tier: Tier) -> u32 {
-		tier.pick(12_000, 400_000)
+		tier.pick(100_000, 2_000_000)
 	}
 	fn strategy(&self, tier: Tier) -> BoxedStrategy<MsgsCase> {
 		let d = tier.pick(3, 6);
